@@ -14,6 +14,8 @@ import (
 	"golang.org/x/tools/go/ssa"
 )
 
+var debugDecide = os.Getenv("SYMGO_DECIDE") != ""
+
 type dec struct {
 	B     bool
 	IsVal bool
@@ -68,6 +70,7 @@ type pathState struct {
 	writeMark  int
 	roots      []Value
 	hashes     []*hashApp
+	hstates    map[*Value]*hashState
 	uniq       int
 	facts      factTab
 	binds      *bindTab
@@ -163,6 +166,12 @@ func (e *Eng) Decide(c *Term) bool {
 	}
 	nc := tb.BNot(c)
 	var d bool
+	if debugDecide {
+		t0 := time.Now()
+		defer func() {
+			fmt.Fprintf(os.Stderr, "DECIDE #%d %v %.3fs %s\n", len(p.prefix), d, time.Since(t0).Seconds(), c.strDepth(4))
+		}()
+	}
 	rT := Unsat
 	if !p.unsatMemo[c.ID] {
 		rT, _ = e.solver.Check([]*Term{c}, nil)
